@@ -132,7 +132,11 @@ func c15Handler(c *core.Ctx, name string, id int) gen.Handler {
 	body = append(body, gen.Decl{Name: "loc", T: tNum, Init: nl(0)}, gen.Assign{Target: vr("loc", tNum), Val: gen.Binary{Op: "+", L: vr("loc", tNum), R: nl(1), T: tNum}}, printCall(sl("loc"), vr("loc", tNum)))
 	shadowed := false
 	for k := 0; k < 2+r.Intn(4); k++ {
-		switch r.Intn(9) {
+		switch r.Intn(10) {
+		case 9:
+			// the left operand is a global that the call in the right operand assigns: the value read first counts
+			c.Cover("body", "global-operand-assigned-by-call")
+			body = append(body, gen.Assign{Target: vr("cnt", tNum), Val: gen.Binary{Op: "+", L: vr("cnt", tNum), R: gen.Paren{X: call("bump", tNum, nl(float64(1+r.Intn(3))))}, T: tNum}}, printCall(sl("cnt"), vr("cnt", tNum)))
 		case 0:
 			body = append(body, gen.Assign{Target: vr("cnt", tNum), Val: gen.Binary{Op: "+", L: vr("cnt", tNum), R: nl(1), T: tNum}})
 		case 1:
@@ -303,6 +307,11 @@ func c15Run(c *core.Ctx, i int) {
 	c.Cover("handlers", fmt.Sprint(len(handlers)))
 	// event sequence
 	n := 1 + r.Intn(30)
+	if i%10 == 7 {
+		// long sessions: hundreds of deliveries (animation frames) - nothing may accumulate per delivery
+		n = 280 + r.Intn(400)
+		c.Cover("session", "hundreds-of-deliveries")
+	}
 	var evs []c15Event
 	for k := 0; k < n; k++ {
 		evs = append(evs, c15Payload(c, c15Names[r.Intn(len(c15Names))]))
